@@ -44,6 +44,10 @@ class Excel:
         except ValueError as error:
             raise E2PyclParserException(f'Invalid cell reference: {error}')
 
+        if cell.row is not None and cell.row < 0:
+            # A0: rows are numbered from 1 (the negative index would also end up in the name of a method)
+            raise E2PyclParserException(f'Invalid cell reference: there is no row 0 ({cell})')
+
     def _fill_cell(self, cell: Cell) -> Cell:
         self._handle_cell(cell)
         cell.value = self._data[cell.title][cell.row][cell.column] if 0 <= cell.title < len(
